@@ -227,6 +227,12 @@ pub fn run(ctx: &mut Ctx) {
             Outcome::Ret(b) if b == one => {}
             o => ctx.violation(&format!("pairing:g^N!=1:{}", o.class()), json!({})),
         }
+        // the ends of the exponent range: g^0 = 1 = e([0]P, Q), g^1 = g
+        ctx.eval();
+        match guard(|| (hk::fp12_pow(&g0, &[0, 0, 0, 0]).to_bytes_be(), hk::fp12_pow(&g0, &[1, 0, 0, 0]).to_bytes_be())) {
+            Outcome::Ret((z, o1)) if z == one && o1 == g0b => {}
+            o => ctx.violation(&format!("pairing:g^0!=1_or_g^1!=g:{}", o.class()), json!({})),
+        }
     }
     // points at infinity (scalars 0 and N): e(O, Q) = e(P, O) = 1
     if ctx.shard == 0 {
